@@ -40,17 +40,38 @@ func c20EventLoops(c *core.Ctx, f *flow.Func) map[string]*ast.RangeStmt {
 		"create": structField(c, c20sv, "ObjectEntityWatcherEvent", "Create"),
 		"update": structField(c, c20sv, "ObjectEntityWatcherEvent", "Update"),
 	}
-	c20SkipLits(f.Body, func(n ast.Node) bool {
-		if rs, ok := n.(*ast.RangeStmt); ok {
-			fld := c20FieldOf(f, rs.X)
+	// a loop over event.X itself, in f or in a same-package function it calls; or a loop over a
+	// parameter of such a function which f binds to event.X
+	gs, _ := c20Reach(f, 2)
+	for _, g := range gs {
+		g := g
+		gfd, _ := g.Node.(*ast.FuncDecl)
+		c20SkipLits(g.Body, func(n ast.Node) bool {
+			rs, ok := n.(*ast.RangeStmt)
+			if !ok {
+				return true
+			}
+			fld := c20FieldOf(g, rs.X)
+			if fld == nil && g.Body != f.Body && gfd != nil {
+				if idx := c20ParamIndex(g, gfd, c20Var(g, rs.X)); idx >= 0 {
+					gObj, _ := g.Info.Defs[gfd.Name].(*types.Func)
+					for _, h := range gs {
+						for _, call := range calls(h.Body, true) {
+							if fo, ok := h.Callee(call).(*types.Func); ok && gObj != nil && fo == gObj && idx < len(call.Args) {
+								fld = c20FieldOf(h, call.Args[idx])
+							}
+						}
+					}
+				}
+			}
 			for role, v := range fields {
 				if v != nil && fld == v && out[role] == nil {
 					out[role] = rs
 				}
 			}
-		}
-		return true
-	})
+			return true
+		})
+	}
 	return out
 }
 
@@ -98,7 +119,18 @@ func c20Handlers(c *core.Ctx) {
 
 // c20Handler analyses one function and checks its scopes.
 func c20Handler(c *core.Ctx, f *flow.Func, cons string, scopes []*c20Scope, mutexF *types.Var) {
-	lookups := c20Lookups(f, f.Body)
+	gs, wrappers := c20Reach(f, 2)
+	var lookups []*c20Lookup
+	for _, g := range gs {
+		for _, l := range c20Lookups(g, g.Body) {
+			l.id = len(lookups)
+			lookups = append(lookups, l)
+		}
+	}
+	var allCalls []*ast.CallExpr
+	for _, g := range gs {
+		allCalls = append(allCalls, calls(g.Body, false)...)
+	}
 	scopeOf := func(n ast.Node) *c20Scope {
 		for _, sc := range scopes {
 			if sc.loop == nil || contains(sc.loop.Body, n) {
@@ -198,6 +230,20 @@ func c20Handler(c *core.Ctx, f *flow.Func, cons string, scopes []*c20Scope, mute
 	}
 
 	res := analyze(c, f, flow.Config{
+		Inline: c20InlineRelevant(f, wrappers, func(g *flow.Func) bool {
+			for _, sc := range scopes {
+				if sc.loop != nil && contains(g.Body, sc.loop) {
+					return true
+				}
+			}
+			for _, call := range calls(g.Body, true) {
+				w, _ := c20Wrapper(g, call)
+				if op, _ := c20SyncMapOp(g, call); op != "" || w != "" {
+					return true
+				}
+			}
+			return false
+		}),
 		OnBlock: func(st *flow.State, b *cfg.Block) {
 			for _, sc := range scopes {
 				if sc.loop == nil || b.Stmt != ast.Stmt(sc.loop) {
@@ -250,12 +296,12 @@ func c20Handler(c *core.Ctx, f *flow.Func, cons string, scopes []*c20Scope, mute
 			}
 		},
 		OnCall: func(st *flow.State, call *ast.CallExpr, callee types.Object, deferred bool) {
-			switch {
-			case calleeIs(f, call, c20WInit):
+			switch w, _ := c20Wrapper(f, call); w {
+			case "init":
 				st.Set(evInit, flow.True)
-			case calleeIs(f, call, c20WInherit):
+			case "inherit":
 				st.Set(evInherit, flow.True)
-			case calleeIs(f, call, c20WClose):
+			case "close":
 				st.Set(evClose, flow.True)
 			}
 			switch op, _ := c20SyncMapOp(f, call); op {
@@ -313,14 +359,14 @@ func c20Handler(c *core.Ctx, f *flow.Func, cons string, scopes []*c20Scope, mute
 	}
 	var mapFields = map[*c20Scope]map[*types.Var]bool{}
 	var keyRenders = map[*c20Scope]map[string]bool{}
-	for _, call := range calls(f.Body, false) {
+	for _, call := range allCalls {
 		sc := scopeOf(call)
 		if sc == nil {
 			continue
 		}
-		sel, _ := ast.Unparen(call.Fun).(*ast.SelectorExpr)
+		wkind, wrecv := c20Wrapper(f, call)
 		states := res.At[call]
-		isWrapper := calleeIs(f, call, c20WInit, c20WInherit, c20WClose)
+		isWrapper := wkind != ""
 		op, recv := c20SyncMapOp(f, call)
 		if !isWrapper && op == "" {
 			continue
@@ -357,14 +403,14 @@ func c20Handler(c *core.Ctx, f *flow.Func, cons string, scopes []*c20Scope, mute
 			continue
 		}
 		switch {
-		case calleeIs(f, call, c20WClose):
+		case wkind == "close":
 			counts[sc]["close"]++
-			ls := []*c20Lookup{lookupOfVal(c20RootOrigin(f, sel.X))}
+			ls := []*c20Lookup{lookupOfVal(c20RootOrigin(f, wrecv))}
 			if ls[0] == nil {
 				// the event's own entity for the name being deleted (same pointer as the live one as
 				// long as every event is handled) is accepted too; any lookup of the name then counts
 				ls = nil
-				if c20IsEventEntity(f, sc, sel.X) {
+				if c20IsEventEntity(f, sc, wrecv) {
 					for _, l := range lookups {
 						if l.op != "index" && contains(sc.loop.Body, l.stmt) {
 							ls = append(ls, l)
@@ -388,9 +434,9 @@ func c20Handler(c *core.Ctx, f *flow.Func, cons string, scopes []*c20Scope, mute
 					sc.fClose.fail(st, call, "CloseWithRecovery is reached without the name having been found in the live map: the nil entity's type assertion / method call panics outside any recover and kills the handler (nothing after it is reconciled)")
 				}
 			}
-		case calleeIs(f, call, c20WInit):
+		case wkind == "init":
 			counts[sc]["init"]++
-			if sc.entity == nil || c20RootOrigin(f, sel.X) != sc.entity {
+			if sc.entity == nil || c20RootOrigin(f, wrecv) != sc.entity {
 				sc.fInit.fail(nil, call, "InitWithRecovery is called on something other than the entity being created")
 			}
 			for _, st := range states {
@@ -408,9 +454,9 @@ func c20Handler(c *core.Ctx, f *flow.Func, cons string, scopes []*c20Scope, mute
 					sc.fInit.fail(st, call, "InitWithRecovery is reached without the name having been looked up and found absent: an existing live object of that name is overwritten without Close or Inherit (second Init on the same name; the old listener/port leaks)")
 				}
 			}
-		case calleeIs(f, call, c20WInherit):
+		case wkind == "inherit":
 			counts[sc]["inherit"]++
-			if sc.entity == nil || c20RootOrigin(f, sel.X) != sc.entity {
+			if sc.entity == nil || c20RootOrigin(f, wrecv) != sc.entity {
 				sc.fInherit.fail(nil, call, "InheritWithRecovery is called on something other than the new entity")
 			}
 			var l *c20Lookup
@@ -425,7 +471,7 @@ func c20Handler(c *core.Ctx, f *flow.Func, cons string, scopes []*c20Scope, mute
 			}
 			// Equals guards between predecessor and new entity (apply only)
 			var eqKeys []string
-			for _, ec := range calls(f.Body, false) {
+			for _, ec := range allCalls {
 				if calleeIs(f, ec, "(*"+c20sv+".Spec).Equals") && len(ec.Args) == 1 {
 					es := ast.Unparen(ec.Fun).(*ast.SelectorExpr)
 					a, b := c20RootOrigin(f, es.X), c20RootOrigin(f, ec.Args[0])
@@ -608,6 +654,19 @@ func c20Dispatch(c *core.Ctx) {
 		})
 	}
 	res := analyze(c, f, flow.Config{
+		Inline: c20InlineRelevant(f, nil, func(g *flow.Func) bool {
+			for _, l := range loops {
+				if contains(g.Body, l) {
+					return true
+				}
+			}
+			for _, call := range calls(g.Body, true) {
+				if tcCall(call) != "" {
+					return true
+				}
+			}
+			return false
+		}),
 		OnBlock: func(st *flow.State, b *cfg.Block) {
 			for role, l := range loops {
 				if b.Stmt == ast.Stmt(l) && b.Kind == cfg.KindRangeDone {
@@ -679,5 +738,30 @@ func c20Dispatch(c *core.Ctx) {
 		}
 		fd.report(c, "R-C20-4", cons+"|"+verbs[role]+" loop: dispatch", l,
 			sprintf("%d states at %d TrafficController.%s* calls: pipelines and traffic gates told apart by kind, after the deletions", fd.n, matching, verbs[role]))
+	}
+}
+
+// c20InlineRelevant inlines only the same-package callees that carry part of the reconciliation
+// step (a class loop, a live-map operation, a lifecycle wrapper or TrafficController call); pure
+// helpers stay opaque calls. (Work-around: the engine's fact transfer on leaving an inlined callee
+// adds the callee's parameter to the dependencies of the caller's facts, so a second entry into
+// the same callee kills them — harmless for helpers entered once per path.)
+func c20InlineRelevant(f *flow.Func, except []types.Object, relevant func(g *flow.Func) bool) func(*ast.CallExpr, *types.Func) *flow.Func {
+	base := inlineSamePkg(f, except...)
+	memo := map[*flow.Func]bool{}
+	return func(call *ast.CallExpr, callee *types.Func) *flow.Func {
+		g := base(call, callee)
+		if g == nil {
+			return nil
+		}
+		r, ok := memo[g]
+		if !ok {
+			r = relevant(g)
+			memo[g] = r
+		}
+		if !r {
+			return nil
+		}
+		return g
 	}
 }
